@@ -160,7 +160,9 @@ def rule_X(ctx):
         for n in ((2, 3, 4, 5, 6, 7, 8) if ctx.tier == 'thorough' else (2, 3, 4, 5, 6)):
             for target in _lists(n):
                 tset = set(_segs(target))
-                for lo, hi in ((1, 10), (-10, -1)):
+                # ... and costs that double precision tells apart but a narrower table would not: differences of 2^-30 around 1,
+                #     magnitudes of 1e299-1e300 (the library's own sentinel for "no segment")
+                for lo, hi in ((1, 10), (-10, -1)) + (((1.0, 1.0 + 2.0 ** -30), (1e299, 1e300)) if n in (3, 4, 5) else ()):
                     # (lo, hi) = (1, 10): the segments of the target are cheap (dear when maximising), all others dear (cheap);
                     # (-10, -1): the same with negative costs.  Any other list then has a strictly worse sum.
                     good, other = (lo, hi) if want_min else (hi, lo)
